@@ -79,6 +79,17 @@ check("C15", "proof",
       "json module behaviour for int/float/str subclasses, comprehension uniformity in the length; text-level round trip, "
       "navigation under both runners and timestamp/duration/bytes encodings are a bounded stand-in.",
       "contract-based deductive verification: structural induction via the function's own contract on sub-documents", "DESIGN.md 4/C15")
+check("C17", "proof",
+      "intersect/difference/unique_size are executed on lists of unknown length (z3 sequences, builtin set algebra as "
+      "membership predicates): result iff a common element exists / iff some element of the left is missing on the right / "
+      "the number of distinct elements; normalize and glob compose lower/strip and fnmatch in the stated order; key() over "
+      "0-3 tags with arbitrary names returns the Value of the FIRST match or null; arn_split over 0-8 fields x every field "
+      "name (named field for 5/6 fields, error otherwise); IPv4Network.__contains__ dispatch (None / network / address); "
+      "C7N_Interpreted_Runner.evaluate: the module-global context is the filter during the evaluation and None after normal "
+      "and exceptional exit (module-global writes tracked per path).",
+      "builtin set/str/fnmatch/ipaddress/packaging semantics are uninterpreted or structural models (oracle relations); "
+      "CIDR containment on a 32-address universe, versions, marked_key and CEL-level calls are a bounded stand-in.",
+      "contract-based deductive verification relative to library contracts + bounded sweeps for the libraries", "DESIGN.md 4/C17")
 _pending = "contracts for this property are not built yet in this revision (work in progress, see DESIGN.md section 8 build order)"
-for _p in ["C03","C04","C05","C06","C07","C09","C10","C11","C12","C14","C16","C17"]:
+for _p in ["C03","C04","C05","C06","C07","C09","C10","C11","C12","C14","C16"]:
     NA[_p] = _pending
